@@ -96,8 +96,9 @@ class FloorTracer:
         self.fixed = fixed
         self.nfix = 0
         if id_offset:
+            # C14: the global asset-id counter is put at a chosen value (how many assets were created before)
             from simprocesd.model.factory_floor.asset import Asset
-            Asset._id_counter += id_offset
+            Asset._id_counter = id_offset
         B._shim.seed(seed)
         self.tid = tid
         self.cfg = cfg
@@ -250,11 +251,12 @@ class FloorTracer:
         st['pool'] = {r: {'used': num(v[0]), 'cap': num(v[1])} for r, v in sorted(rm._resources.items())}
         st['waitq'] = [getattr(getattr(cb, '__self__', None), '_vid', 0) for _, cb in rm._waiting_requests]
         sd = env.simulation_data
-        st['cnt'] = {lab: {str(k): len(v) for k, v in sorted(sd[lab].items(), key=lambda kv: str(kv[0]))}
+        nm = self.m.names
+        st['cnt'] = {lab: {nm.get(str(k), str(k)): len(v) for k, v in sorted(sd[lab].items(), key=lambda kv: str(kv[0]))}
                      for lab in sorted(sd)}
         lastlev = {}
         for name, lst in sd.get('level', {}).items():
-            lastlev[name] = num(lst[-1][1])
+            lastlev[self.m.names.get(str(name), str(name))] = num(lst[-1][1])
         st['lastlevel'] = lastlev
         lastres = {}
         for r, lst in sd.get('resource_update', {}).items():
@@ -284,7 +286,7 @@ class FloorTracer:
                 key = (lab, str(name))
                 n0 = self.nrec.get(key, 0)
                 for r in lst[n0:]:
-                    row = [lab, str(name), tk(r[0])]
+                    row = [lab, self.m.names.get(str(name), str(name)), tk(r[0])]
                     if lab in ('received_part', 'produced_part'):
                         row += [self.pid_by_asset(r[1]), num(r[2]), num(r[3])]
                     elif lab == 'supplied_new_part':
